@@ -428,6 +428,7 @@ def worker_env() -> dict:
     env["PYTHONHASHSEED"] = "0"
     env["PYTHONDONTWRITEBYTECODE"] = "1"
     env["PYXEL_VERIF"] = "1"
+    env["TQDM_DISABLE"] = "1"
     env.pop("NUMBA_DISABLE_JIT", None)
     env.setdefault("OMP_NUM_THREADS", "1")
     env.setdefault("OPENBLAS_NUM_THREADS", "1")
@@ -469,6 +470,7 @@ def parent_main(prop: str, tier: str, nshards: int | None = None) -> int:
     import warnings
 
     warnings.simplefilter("ignore")
+    os.environ["TQDM_DISABLE"] = "1"
     t0 = time.time()
     seed = int(os.environ.get("VERIF_SEED", "1") or 1)
     env = worker_env()
